@@ -1,0 +1,7 @@
+//go:build !verif
+
+package cache
+
+// verifMark is an event marker used by the model-based verification harness (build tag `verif`).
+// Without the tag it is an empty, inlinable function.
+func verifMark(string, uint64, *accessor) {}
